@@ -139,6 +139,14 @@ func (bc *Blockchain) GetBlockTemplate(txn adb.Txn, addr address.Address) (*bloc
 					}
 				}
 			}
+			// PrevalidateBlock refuses a block with two side blocks that share base hash and nonces (blocks that differ
+			// only in fields the proof of work does not cover): list only one of them
+			for _, sb := range bl.SideBlocks {
+				if sb.BaseHash == side.BaseHash && sb.Nonce == side.Nonce && sb.NonceExtra == side.NonceExtra {
+					Log.Debug("side block duplicates one that is already in the template")
+					return nil
+				}
+			}
 			Log.Debug("found valid side block")
 			bl.SideBlocks = append(bl.SideBlocks, side)
 
